@@ -1,7 +1,14 @@
 (* C11_Corr.v — correspondence vocabulary for C11.  A case is a configuration (hooks with
    schedule bindings sharing one real scheduleManager), a sequence of operations and what
    the implementation showed after each of them.  Evaluated by vm_compute in the generated
-   cases files. *)
+   cases files.
+
+   Crontabs are the real strings (bytes).  A generated case binds each string of its table
+   once ([let s0 := [42; 32; ...] in ...]) and refers to it by that name in the bindings,
+   the operations and the observations; strings the implementation came up with that the
+   input did not contain (a key of Entries, what a cron job sent) are appended to the table
+   and to the alphabet by the harness, so that they are compared like all others.
+   [i_invalid] lists the table's strings the real cron.Parse rejected. *)
 From Verif Require Import Common C11_Model C11_Spec.
 
 Definition case := (input * list obs)%type.
@@ -18,11 +25,11 @@ Fixpoint insert_sorted (x : N) (l : list N) : list N :=
 Definition sort_ns (l : list N) : list N := fold_right insert_sorted [] l.
 
 (* Entries: the id set is compared as a set (the harness prints it sorted) *)
-Definition entry_eqb (a b : N * option (N * list N)) : bool :=
-  N.eqb (fst a) (fst b)
+Definition entry_eqb (a b : ct * option (N * list N)) : bool :=
+  ct_eqb (fst a) (fst b)
   && option_eqb (fun x y => N.eqb (fst x) (fst y) && ns_eqb (sort_ns (snd x)) (sort_ns (snd y)))
                 (snd a) (snd b).
-Definition cron_eqb (a b : N * N) : bool := N.eqb (fst a) (fst b) && N.eqb (snd a) (snd b).
+Definition cron_eqb (a b : N * ct) : bool := N.eqb (fst a) (fst b) && ct_eqb (snd a) (snd b).
 (* firing: the controller iterates a Go map, its answer is judged as a multiset *)
 Definition fire_eqb (a b : bool * list info) : bool :=
   Bool.eqb (fst a) (fst b) && is_perm (snd a) (snd b).
